@@ -98,7 +98,8 @@ func checkValue(t hx.TB, test string, w uint, v *big.Int, noise int) {
 		if p := lx.Guard(func() { got, err = constant.NewIntFromString(typ, sp.text) }); p != nil || err != nil {
 			hx.Fail(t, test, "txt", caseStr(w, v, sp.text), "literal %q (i%d) is not accepted: %v %v", sp.text, w, err, p)
 		}
-		if got.X.Cmp(sp.want) != 0 {
+		// same value of the w-bit type (i8 255 and i8 -1 are one value); for w > 1 the library keeps the spelling's own integer
+		if modW(got.X, w).Cmp(modW(sp.want, w)) != 0 || w > 1 && got.X.Cmp(sp.want) != 0 {
 			hx.Fail(t, test, "txt", caseStr(w, v, sp.text), "i%d literal %q denotes %s but is read as %s", w, sp.text, sp.want, got.X)
 		}
 		hx.Hist("spelling/" + sp.kind)
@@ -282,7 +283,7 @@ func checkModule(t hx.TB, test string, ws []uint, vs []*big.Int, lits []spelling
 		if !ok {
 			hx.Fail(t, test, "ll", in, "global %d: initialiser is %T", i, g.Init)
 		}
-		if ci.X.Cmp(lits[i].want) != 0 {
+		if modW(ci.X, ws[i]).Cmp(modW(lits[i].want, ws[i])) != 0 || ws[i] > 1 && ci.X.Cmp(lits[i].want) != 0 {
 			one := fmt.Sprintf("@g%d = global i%d %s\n", i, ws[i], lits[i].text)
 			hx.Fail(t, test, "ll", one, "i%d literal %q denotes %s but the parser reads %s", ws[i], lits[i].text, lits[i].want, ci.X)
 		}
